@@ -355,6 +355,60 @@ static void report_monitor (int step) {
   rec_end ();
 }
 
+// structural invariants of the object world (C08): returns a list of violations
+static void check_invariants (int step) {
+  std::vector<std::string> bad;
+  char b[400];
+  int nobj = 0;
+  for (object_t *ob = obj_list; ob; ob = ob->next_all) {
+    if (++nobj > 200000) { bad.push_back ("obj_list is cyclic or absurdly long"); break; }
+    if (ob->flags & O_DESTRUCTED) { snprintf (b, sizeof b, "destructed object %s is still in obj_list", ob->name); bad.push_back (b); continue; }
+    object_t *h = lookup_object_hash (ob->name);
+    if (h != ob) { snprintf (b, sizeof b, "obj_list member %s is not the object found under its name (%s)", ob->name, h ? "another object" : "nothing"); bad.push_back (b); }
+    if (ob->super) {
+      if (ob->super->flags & O_DESTRUCTED) { snprintf (b, sizeof b, "%s has a destructed environment %s", ob->name, ob->super->name); bad.push_back (b); }
+      int cnt = 0, n = 0;
+      for (object_t *x = ob->super->contains; x && n < 100000; x = x->next_inv, n++) if (x == ob) cnt++;
+      if (cnt != 1) { snprintf (b, sizeof b, "%s occurs %d times in the inventory of its environment %s", ob->name, cnt, ob->super->name); bad.push_back (b); }
+      int depth = 0;
+      for (object_t *x = ob->super; x; x = x->super) if (++depth > 10000) { snprintf (b, sizeof b, "environment chain of %s is cyclic", ob->name); bad.push_back (b); break; }
+    }
+    int n = 0;
+    for (object_t *x = ob->contains; x; x = x->next_inv) {
+      if (++n > 100000) { snprintf (b, sizeof b, "inventory chain of %s is cyclic", ob->name); bad.push_back (b); break; }
+      if (x->flags & O_DESTRUCTED) { snprintf (b, sizeof b, "inventory of %s holds destructed %s", ob->name, x->name); bad.push_back (b); }
+      if (x->super != ob) { snprintf (b, sizeof b, "%s is in the inventory of %s but its environment is %s", x->name, ob->name, x->super ? x->super->name : "none"); bad.push_back (b); }
+    }
+  }
+  int nd = 0;
+  for (object_t *ob = obj_list_destruct; ob; ob = ob->next_all) {
+    if (++nd > 200000) break;
+    if (!(ob->flags & O_DESTRUCTED)) { snprintf (b, sizeof b, "live object %s is in the destruct list", ob->name); bad.push_back (b); }
+    if (ob->super || ob->contains) { snprintf (b, sizeof b, "destructed %s still has an environment or inventory", ob->name); bad.push_back (b); }
+    if (ob->flags & O_HEART_BEAT) { snprintf (b, sizeof b, "destructed %s still has a heart beat", ob->name); bad.push_back (b); }
+    if (ob->living_name) { snprintf (b, sizeof b, "destructed %s still has a living name", ob->name); bad.push_back (b); }
+    if (ob->interactive) { snprintf (b, sizeof b, "destructed %s is still interactive", ob->name); bad.push_back (b); }
+    if (lookup_object_hash (ob->name) == ob) { snprintf (b, sizeof b, "destructed %s is still found by name", ob->name); bad.push_back (b); }
+  }
+  for (int i = 0; i < CONFIG_INT (__LIVING_HASH_TABLE_SIZE__); i++) {
+    int n = 0;
+    for (object_t *x = hashed_living[i]; x && n < 100000; x = x->next_hashed_living, n++)
+      if (x->flags & O_DESTRUCTED) { snprintf (b, sizeof b, "living hash holds destructed %s", x->name); bad.push_back (b); }
+  }
+  {
+    array_t *hb = get_heart_beats ();
+    for (int i = 0; i < hb->size; i++)
+      if (hb->item[i].type == T_OBJECT && (hb->item[i].u.ob->flags & O_DESTRUCTED)) { snprintf (b, sizeof b, "heart beat list holds destructed %s", hb->item[i].u.ob->name); bad.push_back (b); }
+    free_array (hb);
+  }
+  for (int i = 0; i < max_users; i++)
+    if (all_users && all_users[i] && all_users[i]->ob && (all_users[i]->ob->flags & O_DESTRUCTED)) { snprintf (b, sizeof b, "user slot %d holds destructed %s", i, all_users[i]->ob->name); bad.push_back (b); }
+  rec_begin (step, "invariants"); rec_kv_int ("objects", nobj); rec_kv_int ("destructed", nd);
+  obuf += ",\"bad\":[";
+  for (size_t i = 0; i < bad.size () && i < 20; i++) { if (i) obuf += ","; js_str (obuf, bad[i]); }
+  obuf += "]"; rec_end ();
+}
+
 // run one call step inside an error context exactly like backend.c does
 enum { R_VAL, R_ERR, R_NOFN, R_NOOB };
 
@@ -434,6 +488,7 @@ void run_direct_step (int i, std::vector<std::string> &a) {
   }
   else if (c == "clearcache") { clear_apply_cache (); rec_begin (i, "ok"); rec_end (); }
   else if (c == "regs") snap_regs (i);
+  else if (c == "invariants") check_invariants (i);
   else if (c == "stats") snap_stats (i);
   else if (c == "evalcost") { eval_cost = strtoll (a[1].c_str (), 0, 10); evalcost_override = 1; }
   else if (c == "resetcost") { eval_cost = CONFIG_INT (__MAX_EVAL_COST__); }
